@@ -204,7 +204,7 @@ def plan_vectors(points, seed, quick):
 def realise_site(s, gamma, u, dt):
     """inputs (psi, mu, eps, lap entry) realising the grid point, by inverting the documented formulas"""
     z = complex(s["zr"], s["zi"]) / DEN
-    w = complex(s["wr"], s["wi"]) / DEN
+    w = complex(s["wr"], s["wi"]) / DEN * s.get("wscale", 1.0)
     mu = MU_PHASES[s["q"]] / dt
     U = cmath.exp(-1j * (mu * dt))
     g = gamma ** 2 / 2
@@ -303,7 +303,7 @@ def run_plan(tdgl, plan):
         err = float(((zd - zg).mag() + (wd - wg).mag()) / M) if M != 0 else 0.0
         worst_real = max(worst_real, err)
         kind = "free" if s["cls"] == "tangent" else "grid"
-        o = dict(kind=kind, zr=s["zr"], zi=s["zi"], wr=s["wr"], wi=s["wi"], e1=0, e2=0, br=True, fin=True, sq=0)
+        o = dict(kind=kind, zr=s["zr"], zi=s["zi"], wr=s["wr"], wi=s["wi"], e1=0, e2=0, br=True, fin=True, sq=0, dpos=True)
         if res is not None:
             o.update(abstract_site(zg, wg, M, res[0][k], res[1][k]))
         ev.append(o)
@@ -368,18 +368,106 @@ def run_tiny(tdgl, plan, ordinary):
         if k < len(ords):
             s = ords[k]
             zq, wq = C(F(s["zr"], DEN), F(s["zi"], DEN)), C(F(s["wr"], DEN), F(s["wi"], DEN))
-            o = dict(kind="grid", zr=s["zr"], zi=s["zi"], wr=s["wr"], wi=s["wi"], e1=0, e2=0, br=True, fin=True, sq=0)
+            o = dict(kind="grid", zr=s["zr"], zi=s["zi"], wr=s["wr"], wi=s["wi"], e1=0, e2=0, br=True, fin=True, sq=0, dpos=True)
         else:
             zq, wq = zd, wd
             small = zd.abs2() * wd.abs2() < F(1, 16)
             if not small:
                 raise RuntimeError("tiny family: site is not in the domain of lemma SmallProductSolvable")
-            o = dict(kind="small", zr=0, zi=0, wr=0, wi=0, e1=0, e2=0, br=True, fin=True, sq=0)
+            o = dict(kind="small", zr=0, zi=0, wr=0, wi=0, e1=0, e2=0, br=True, fin=True, sq=0, dpos=True)
         if res is not None:
             o.update(abstract_site(zq, wq, M, res[0][k], res[1][k]))
         ev.append(o)
     return dict(refused=res is None, ev=ev, family=plan["family"], params=dict(gamma=gamma, u=u, dt=dt, mode=plan["mode"]),
                 inputs=dict(psi=[[x.real, x.imag] for x in psi], eps=list(eps)),
+                answer=None if res is None else [[complex(a).real, complex(a).imag, float(np.real(b))] for a, b in zip(res[0][:n], res[1][:n])])
+
+
+NEAR_SIZES = [1e-9, 1e-10, 1e-11, 1e-12]
+UNIT = 2.0 ** -53
+MARGIN = 100.0          # the exact |D|/(2c+1)^2 must exceed the rounding bound of the float evaluation by this factor
+
+
+def float_discriminant_bound(M, wmag):
+    """A priori bound on the error of D/(2c+1)^2 as evaluated in floating point from the inputs, near a tangent point
+    ((2c+1) = 2|z||w|): the error of w is <= 6u M (M = sum of the magnitudes of the terms of w), it enters D through
+    (2c+1)^2 and 4|z|^2|w|^2 with weight <= 8 (2c+1)|z|, plus 10u for the products: u (24 M/|w| + 10)."""
+    kappa = float(M / wmag) if wmag != 0 else math.inf
+    return 2 * UNIT * (24 * kappa + 10), kappa
+
+
+def near_plans(points, seed, quick):
+    """Near-tangent family: tangent grid points, w scaled by (1 + delta) with delta = -r (2c+1)/2, so that
+    D/(2c+1)^2 ~ r for r = +-1e-9 .. +-1e-12 (D(delta) = -2 (2c+1) delta + O(delta^2) at a tangent point)."""
+    rnd = random.Random(seed + 29)
+    tang = [p for p in points if p["cls"] == "tangent"]
+    rnd.shuffle(tang)
+    if quick:
+        tang = tang[:45]
+    plans = []
+    for p in tang:
+        for size in NEAR_SIZES:
+            for sign in (1, -1):
+                gamma = rnd.choice([1.0, 2.0])
+                plans.append(dict(gamma=gamma, u=rnd.choice([1.0, 5.79]), dt=2.0 ** rnd.randint(-4, 1), point=p, r=sign * size,
+                                  eps=rnd.choice([-1.0, 0.0, 0.5, 1.0]), lap=rnd.choice(["diag", "aux"]), n_ord=rnd.randint(0, 3),
+                                  seed=rnd.randrange(10 ** 6), family=f"near-tangent/{'+' if sign > 0 else '-'}{size:g}"))
+    return plans
+
+
+def run_near(tdgl, plan, ordinary):
+    rnd = random.Random(plan["seed"])
+    gamma, u, dt = plan["gamma"], plan["u"], plan["dt"]
+    p = plan["point"]
+    N = p["n1"] / 16.0
+    sites = [dict(x, q=0, eps=1.0, lap="aux", psi0=1) for x in rnd.sample(ordinary, plan["n_ord"])]
+    near = dict(p, q=0, eps=plan["eps"], lap=plan["lap"], psi0=1, wscale=1.0 - plan["r"] * N / 2.0)
+    pos = rnd.randint(0, len(sites))
+    sites.insert(pos, near)
+    n = len(sites)
+    psi = np.zeros(n + 1, dtype=np.complex128)
+    mu = np.zeros(n + 1)
+    eps = np.ones(n + 1)
+    L = np.zeros((n + 1, n + 1), dtype=np.complex128)
+    psi[n] = 1.0
+    reals = []
+    for k, s in enumerate(sites):
+        r = realise_site(s, gamma, u, dt)
+        reals.append(r)
+        psi[k], mu[k], eps[k] = r["psi"], r["mu"], r["eps"]
+        L[k, k if r["lap"] == "diag" else n] = r["entry"]
+    res = call_real(tdgl, psi, mu, eps, gamma, u, dt, L)
+    ev = []
+    info = {}
+    for k, s in enumerate(sites):
+        rr = reals[k]
+        action = complex(L[k, k] * psi[k]) if rr["lap"] == "diag" else complex(L[k, n] * psi[n])
+        zd, wd, M = documented_zw(psi[k], mu[k], eps[k], gamma, u, dt, action)
+        if k == pos:
+            # the class of the site is the EXACT sign of the discriminant of the documented z, w of the realised float inputs
+            c = zd.re * wd.re + zd.im * wd.im
+            Nq = 2 * c + 1
+            D = Nq * Nq - 4 * zd.abs2() * wd.abs2()
+            ratio = float(D / (Nq * Nq))
+            bound, kappa = float_discriminant_bound(M, wd.mag())
+            determined = bool(Nq > 0 and abs(ratio) >= MARGIN * bound)
+            info = dict(ratio=ratio, bound=bound, kappa=kappa, determined=determined, target=plan["r"])
+            if determined:
+                zq, wq = zd, wd
+                o = dict(kind="near", zr=s["zr"], zi=s["zi"], wr=s["wr"], wi=s["wi"], e1=0, e2=0, br=True, fin=True, sq=0, dpos=bool(D > 0))
+            else:
+                zq, wq = zd, wd
+                o = dict(kind="free", zr=s["zr"], zi=s["zi"], wr=s["wr"], wi=s["wi"], e1=0, e2=0, br=True, fin=True, sq=0, dpos=True)
+            if res is not None:
+                ob = abstract_site(zq, wq, M, res[0][k], res[1][k])
+                o.update(ob)
+        else:
+            zq, wq = C(F(s["zr"], DEN), F(s["zi"], DEN)), C(F(s["wr"], DEN), F(s["wi"], DEN))
+            o = dict(kind="grid", zr=s["zr"], zi=s["zi"], wr=s["wr"], wi=s["wi"], e1=0, e2=0, br=True, fin=True, sq=0, dpos=True)
+            if res is not None:
+                o.update(abstract_site(zq, wq, M, res[0][k], res[1][k]))
+        ev.append(o)
+    return dict(refused=res is None, ev=ev, family=plan["family"], params=dict(gamma=gamma, u=u, dt=dt), near=info,
                 answer=None if res is None else [[complex(a).real, complex(a).imag, float(np.real(b))] for a, b in zip(res[0][:n], res[1][:n])])
 
 
@@ -390,6 +478,7 @@ def run_batch(tdgl, args, tmp=None):
     logging.getLogger("solver").setLevel(logging.CRITICAL)
     out = [run_plan(tdgl, p) for p in args.get("plans", [])]
     out += [run_tiny(tdgl, p, args["ordinary"]) for p in args.get("tiny", [])]
+    out += [run_near(tdgl, p, args["ordinary"]) for p in args.get("near", [])]
     return out
 
 
